@@ -380,7 +380,7 @@ func checkC13(c *lib.Ctx) {
 	} else {
 		r.Note("xfer.seq not available: outcomes are judged by the direct oracle only (expected (n, err) computed by the harness from the property text)")
 	}
-	root, err := os.MkdirTemp("", "vh-c13-")
+	root, err := lib.MkScratch("vh-c13-")
 	if err != nil {
 		r.Fail(lib.Failure{Kind: "tie", Key: "tmpdir", What: err.Error()})
 		return
